@@ -467,6 +467,7 @@ struct FnEmitter {
           if (auto *RD = dyn_cast<CXXRecordDecl>(F->getParent()))
             O["cls"] = C.declName(RD);
           addType(O, F->getType());
+          if (F->isBitField()) O["bw"] = (int64_t)F->getBitWidthValue(C.AC);
           const Expr *B = ME->getBase()->IgnoreParenImpCasts();
           if (isa<CXXThisExpr>(B))
             O["this"] = true;
@@ -698,6 +699,15 @@ struct FnEmitter {
     return std::move(O);
   }
 
+  // The condition actually evaluated last in the block: for `if (a || b)`
+  // the block ending in the IfStmt evaluates `b`, not the whole disjunction.
+  static const Stmt *condOf(const CFGBlock *B) {
+    if (!B->getTerminatorStmt()) return nullptr;
+    if (B->succ_size() == 2)
+      if (const Expr *E = B->getLastCondition()) return E;
+    return B->getTerminatorCondition(false);
+  }
+
   bool emit() {
     const Stmt *Body = FD->getBody();
     if (!Body) return false;
@@ -803,7 +813,7 @@ struct FnEmitter {
         JB["tloc"] = C.lcStr(T->getBeginLoc());
         if (isa<SwitchStmt>(T) && AnyLabel)
           JB["labels"] = std::move(SuccLabels);
-        if (const Stmt *Cond = B->getTerminatorCondition(false)) {
+        if (const Stmt *Cond = condOf(B)) {
           JB["cond"] = tree(Cond);
           JB["condsrc"] = C.srcText(Cond, 160);
         }
@@ -870,7 +880,7 @@ struct FnEmitter {
             if (isa<CXXThisExpr>(ME->getBase()->IgnoreParenImpCasts()))
               continue;
           O["k"] = "expr";
-          if (B->getTerminatorCondition(false) == St) {
+          if (condOf(B) == St) {
             O["iscond"] = true;  // tree is the block's "cond"
           } else {
             O["e"] = tree(St);
